@@ -350,22 +350,26 @@ def checkEntry (e : Entry) (b : Bytes) : Except Reject Gate :=
 
 def entriesFor (s : Nat) : List Entry := registry.filter (fun e => e.rsid == s)
 
-/-- which class `parse_dynamic` tries for `b`, and whether its `_check_pdu` lets `b` through -/
-def gate (b : Bytes) : Except Reject Gate :=
+/-- which class `parse_dynamic` tries for `b` (`none` = fall back to `RawPositiveResponse`) -/
+def dispatch (b : Bytes) : Except Reject (Option Entry) :=
   match b with
   | [] => .error .empty
   | s :: t =>
     match entriesFor s.toNat with
-    | [] => .ok .raw                                    -- unknown service
+    | [] => .ok none                                    -- unknown service
     | e0 :: es =>
       if e0.bySub then
         match t with
         | [] => .error .noSubFunction
-        | f :: _ =>
-          match (e0 :: es).find? (fun e => e.sub == some (f.toNat % 0x80)) with
-          | none => .ok .raw                            -- unknown sub-function
-          | some e => checkEntry e b
-      else checkEntry e0 b
+        | f :: _ => .ok ((e0 :: es).find? (fun e => e.sub == some (f.toNat % 0x80)))   -- none: unknown sub-function
+      else .ok (some e0)
+
+/-- dispatch, then the class's `_check_pdu` -/
+def gate (b : Bytes) : Except Reject Gate :=
+  match dispatch b with
+  | .error r => .error r
+  | .ok none => .ok .raw
+  | .ok (some e) => checkEntry e b
 
 /-- `UDSResponse.parse_dynamic` with the lossless reading of the length / format rules -/
 def decodeResp (b : Bytes) : Except Reject Resp :=
